@@ -194,7 +194,9 @@ def _run_shard(job):
         attempts += 1
         try:
             with open(os.path.join(sd, "stderr.txt"), "w") as ef:
-                p = subprocess.run(argv, env=env, stdout=ef, stderr=subprocess.STDOUT, timeout=run.timeout, cwd=sd)
+                # the watchdog is generous and load-aware: on an oversubscribed box (other checks running) it scales up
+                scale = max(1.0, 2.0 * os.getloadavg()[0] / max(1, os.cpu_count() or 16))
+                p = subprocess.run(argv, env=env, stdout=ef, stderr=subprocess.STDOUT, timeout=run.timeout * scale, cwd=sd)
             rc = p.returncode
             timed_out = False
         except subprocess.TimeoutExpired:
